@@ -22,6 +22,7 @@ CONFIG = dict(
     lean_modules=["Rbgp.Rib.PropsC02"],
     theorems=[
         "Rbgp.Rib.PropsC02.check_run_ok",
+        "Rbgp.Rib.PropsC02.check_run_ok_of_codec",
         "Rbgp.Rib.PropsC02.cmp_lawful",
         "Rbgp.Rib.PropsC02.cmp_iff_beats",
         "Rbgp.Rib.PropsC02.asPathLength_spec",
